@@ -504,6 +504,8 @@ def diagnose_warm_cold(ctx: Ctx, lib: LibInfo, case: 'RealCase', pre: tproj.Proj
 					transitive_only = False
 		if stale and transitive_only:
 			return 'symbols-stale-transitive-import', f'symbol files written before an edit of a transitively imported module are restored: {stale}'
+		if not stale:
+			return 'symbols-restore-differs', 'restoring the symbol files gives other symbols than analysing, although no source in the import closure changed since they were written'
 		return 'symbols-stale-other', f'stale symbol files: {stale}'
 	if rerun_without(lambda rel: rel.endswith('.json')) == cold:
 		return 'tree-stale', 'a cached syntax tree differs from a fresh parse'
